@@ -163,6 +163,10 @@ def find_peaks(data, threshold, *, box_size=3, footprint=None, mask=None,
 
     peak_goodmask = (data == data_max)  # good pixels are True
 
+    # NaN pixels (replaced by the minimum value above) are never peaks
+    if np.any(nan_mask):
+        peak_goodmask[nan_mask] = False
+
     # Exclude peaks that are masked
     if mask is not None:
         mask = np.asanyarray(mask)
